@@ -50,7 +50,16 @@ class Sym:
         if k == "CallExpr":
             c = callee(n)
             f = c if c != "?" and not c.startswith("->") else T(n.ch[0])
-            return f"{f}({', '.join(T(a) for a in n.ch[1:])})"
+            txt = f"{f}({', '.join(T(a) for a in n.ch[1:])})"
+            # out-parameters: `&local` passed to a call is overwritten by it
+            for a in n.ch[1:]:
+                sa = strip(a)
+                if sa is not None and sa.kind == "UnaryOperator" \
+                        and sa.op == "&":
+                    v = var(sa.ch[0])
+                    if v:
+                        self.env[v] = f"out({v}@{n.line})"
+            return txt
         if k in ("BinaryOperator", "CompoundAssignOperator"):
             l, r = T(n.ch[0]), T(n.ch[1])
             if k == "CompoundAssignOperator":
